@@ -12,6 +12,7 @@ import Anko.Model.FloatImpl
 import Anko.Model.Cli
 import Anko.Model.Builtins
 import Anko.Model.Eval
+import Anko.Model.EnvApi
 
 open Anko
 
@@ -154,6 +155,65 @@ where
       | some e => some (.inr e)
       | none => none
 
+namespace EnvDrv
+open Anko.EnvApi
+
+def decV : Sexp → Option V
+  | .list [.atom "i", .atom n] => n.toInt?.map V.int
+  | .list [.atom "env", .atom n] => n.toNat?.map V.env
+  | _ => none
+
+def decOp : Sexp → Option Op
+  | .list [.atom "newenv", .atom p] => p.toNat?.map Op.newEnv
+  | .list [.atom "module", .atom p, .atom n] => p.toNat?.map (fun p => Op.newModule p n)
+  | .list [.atom "define", .atom i, .atom n, v] => do pure (Op.define (← i.toNat?) n (← decV v))
+  | .list [.atom "defglobal", .atom i, .atom n, v] => do pure (Op.defineGlobal (← i.toNat?) n (← decV v))
+  | .list [.atom "set", .atom i, .atom n, v] => do pure (Op.set (← i.toNat?) n (← decV v))
+  | .list [.atom "get", .atom i, .atom n] => do pure (Op.get (← i.toNat?) n)
+  | .list [.atom "delete", .atom i, .atom n] => do pure (Op.delete (← i.toNat?) n)
+  | .list [.atom "delglobal", .atom i, .atom n] => do pure (Op.deleteGlobal (← i.toNat?) n)
+  | .list [.atom "deftype", .atom i, .atom n, .atom t] => do pure (Op.defineType (← i.toNat?) n (t.replace "_" " "))
+  | .list [.atom "defglobaltype", .atom i, .atom n, .atom t] => do pure (Op.defineGlobalType (← i.toNat?) n (t.replace "_" " "))
+  | .list [.atom "type", .atom i, .atom n] => do pure (Op.typeOf (← i.toNat?) n)
+  | .list (.atom "path" :: .atom i :: ns) => do
+    let names ← ns.mapM (fun x => match x with | .atom a => some a | _ => none)
+    pure (Op.path (← i.toNat?) names)
+  | .list [.atom "copy", .atom i] => i.toNat?.map Op.copy
+  | .list [.atom "deepcopy", .atom i] => i.toNat?.map Op.deepCopy
+  | .list [.atom "symbols", .atom i] => i.toNat?.map Op.valueSymbols
+  | .list [.atom "typesymbols", .atom i] => i.toNat?.map Op.typeSymbols
+  | .list [.atom "setext", .atom i, .atom b] => i.toNat?.map (fun i => Op.setExt i (b == "1"))
+  | .list [.atom "addr", .atom i, .atom n] => do pure (Op.addr (← i.toNat?) n)
+  | _ => none
+
+def showV : V → String
+  | .int n => s!"(i {n})"
+  | .env id => s!"(env {id})"
+
+def sortStrs (xs : List String) : List String := (xs.toArray.qsort (· < ·)).toList
+
+def showRes : Res → String
+  | .unit => "u"
+  | .val v => showV v
+  | .ty t => "t:" ++ t.replace " " "_"
+  | .scope id => s!"#{id}"
+  | .names ns => "[" ++ " ".intercalate (sortStrs ns) ++ "]"
+  | .err m => "e:" ++ m.replace " " "_"
+
+def showScope (s : EnvApi.Scope) : String :=
+  let vs := sortStrs (s.values.map (fun p => p.1 ++ "=" ++ showV p.2))
+  let ts := sortStrs (s.types.map (fun p => p.1 ++ "=" ++ p.2.replace " " "_"))
+  "{" ++ (match s.parent with | some _ => "P" | none => "R") ++ " v[" ++ " ".intercalate vs ++ "] t[" ++ " ".intercalate ts ++ "]}"
+
+def handle (ops : List Sexp) : String :=
+  match ops.mapM decOp with
+  | none => "bad-args"
+  | some os =>
+    let r := run init os
+    " | ".intercalate (r.1.map showRes) ++ " || " ++ " ".intercalate (r.2.toList.map showScope)
+
+end EnvDrv
+
 /-- `(run fuel cancelAt prog)`: run a whole program on the model. -/
 def handleRun (args : List Sexp) : String :=
   match args with
@@ -185,6 +245,7 @@ def handle (line : String) : String :=
   | none => "bad-sexp"
   | some (.list (.atom "walk" :: args)) => handleWalk args
   | some (.list (.atom "run" :: args)) => handleRun args
+  | some (.list (.atom "envhist" :: ops)) => EnvDrv.handle ops
   | some (.list [.atom "tree", t]) => (match evalTree t with | some r => showOpRes r | none => "bad-args")
   | some (.list (.atom cmd :: args)) => handleOps cmd args
   | some _ => "bad-op"
